@@ -99,7 +99,7 @@ func writeReplay(o *checkOpts, P *Program, rp *oblReport) string {
 	if len(rp.obl.Using) > 0 {
 		extra = rp.obl.ctx.lemmaAxioms(rp.obl.Using, nil)
 	}
-	os.WriteFile(qf, []byte(rp.obl.query(extra, 0)), 0o644)
+	os.WriteFile(qf, []byte(rp.obl.queryVariant(extra, 1)), 0o644)
 	rf.QueryFile = qf
 	if !o.noReplay {
 		if w := buildWitness(o, P, rp); w != nil {
